@@ -486,12 +486,15 @@ int liberasurecode_encode(int desc,
     *encoded_data = (char **) alloc_zeroed_buffer(sizeof(char *) * k);
     if (NULL == *encoded_data) {
         log_error("Could not allocate data buffer!");
+        *encoded_parity = NULL;
+        ret = -ENOMEM;
         goto out;
     }
 
     *encoded_parity = (char **) alloc_zeroed_buffer(sizeof(char *) * m);
     if (NULL == *encoded_parity) {
         log_error("Could not allocate parity buffer!");
+        ret = -ENOMEM;
         goto out;
     }
 
